@@ -122,10 +122,13 @@ def op_sync_properties(rng, seed_i):
     return Operation("sync_properties", build, api, argv), {"pairs": len(pairs)}
 
 
+GEN_INPUT_SRC = ("class Klass(object):\n    '''\n    The zq class\n    '''\n\n    def __init__(self, a=5, b='x'):\n        '''\n        Init\n\n"
+           "        :param a: the a\n\n        :param b: the b\n        '''\n        self.a = a\n\ninput_map = {'Klass': Klass}\n")
+
+
 def op_gen(rng, seed_i):
     modname = "zqc20in_{}".format(seed_i)
-    src = ("class Klass(object):\n    '''\n    The zq class\n    '''\n\n    def __init__(self, a=5, b='x'):\n        '''\n        Init\n\n"
-           "        :param a: the a\n\n        :param b: the b\n        '''\n        self.a = a\n\ninput_map = {'Klass': Klass}\n")
+    src = GEN_INPUT_SRC
     type_ = ("class", "argparse", "function")[seed_i % 3]
 
     def build(root):
@@ -285,8 +288,10 @@ def rejected_invocations(ctx, i, tmproot):
         truth = KINDS[i % 3]
         others = [k for k in KINDS if k != truth]
         p = make_project(rng, root, truth, {others[0]: "stale", others[1]: "agreeing"}, rich=i % 2 == 0)
-        cls = ("missing_truth_file", "fewer_than_two_files", "missing_input_file", "missing_output_file", "existing_gen_output")[i % 5]
+        cls = ("missing_truth_file", "fewer_than_two_files", "missing_input_file", "missing_output_file", "existing_gen_output",
+               "existing_gen_output_named_with_tilde")[i % 6]
         missing = os.path.join(root, "no_such_{}.py".format(i))
+        extra_env = None
         flag = {"argparse_function": "--argparse-function", "class": "--class", "function": "--function"}
         if cls == "missing_truth_file":
             parts = [[flag[truth], missing, flag[truth] + "-name", p.names[truth]]] + [[flag[k], p.files[k], flag[k] + "-name", p.names[k]] for k in others]
@@ -302,9 +307,17 @@ def rejected_invocations(ctx, i, tmproot):
             if i % 2:
                 argv = ["sync_properties", "--output-param", "f.h", "--output-filename", b, "--input-param", "x.y", "--input-filename", a]
         else:
-            argv = ["gen", "--name-tpl", "{name}Config", "--input-mapping", "os.environ", "--type", ("class", "argparse", "function")[i % 3], "-o", p.files[truth]]
+            out, mapping = p.files[truth], "os.environ"
+            if cls == "existing_gen_output_named_with_tilde":
+                # the existing file is named as ~/<file> with HOME pointing at the project (a tilde the shell did not expand)
+                out = "~/" + os.path.basename(p.files[truth])
+                with open(os.path.join(root, "zqc20map_{}.py".format(i)), "w") as f:
+                    f.write(GEN_INPUT_SRC)
+                extra_env = {"HOME": os.path.realpath(root), "PYTHONPATH": os.pathsep.join([env.ROOT, env.REPO, root])}
+                mapping = "zqc20map_{}.input_map".format(i)
+            argv = ["gen", "--name-tpl", "{name}Config", "--input-mapping", mapping, "--type", ("class", "argparse", "function")[i % 3], "-o", out]
         before = snapshot_dir(root)
-        pr = subprocess.run([sys.executable, "-m", "dtverif.cli_launcher"] + argv, cwd=env.ROOT, env=env.child_env(), capture_output=True, text=True, timeout=120)
+        pr = subprocess.run([sys.executable, "-m", "dtverif.cli_launcher"] + argv, cwd=env.ROOT, env=env.child_env(extra_env), capture_output=True, text=True, timeout=120)
         after = snapshot_dir(root)
         ctx.case(("rejected", cls, i), nontrivial=True, sample={"class": cls, "argv": argv[:3] + ["..."], "exit": pr.returncode, "stderr_last": (pr.stderr.strip().split("\n") or [""])[-1][:120]}, sample_key=cls)
         ctx.event("rejected_invocations")
